@@ -418,6 +418,21 @@ def rule_vocab(ctx):
                         i0, i1 = z.a[1].a
                         vv = fa is not None and fa[1] == "SEMIall" and role_of(fa[0]) == "R" and i0 is K and i1.op == "sub" and i1.a[1] is K and kb and facet_of(i1.a[0]) == facet_of(kcond.a[2])
                     good = kb and vv
+            # mask form: (ref_bass >= 0) & (ref_semitones[arange(n), ref_bass] == 0)
+            if not good and _and_pair(m) is not None:
+                for u, w in (_and_pair(m), _and_pair(m)[::-1]):
+                    kb = u.op == "cmp" and u.a[0] == "<=" and tm.is_const(u.a[1], 0) and facet_of(u.a[2]) is not None and facet_of(u.a[2])[1] == "BASS" and role_of(facet_of(u.a[2])[0]) == "R"
+                    z = _none_of(w)
+                    if z is None and w.op == "cmp" and w.a[0] == "==" and (tm.is_const(w.a[1], 0) or tm.is_const(w.a[2], 0)):
+                        z = w.a[2] if tm.is_const(w.a[1], 0) else w.a[1]
+                    if z is not None and z.op == "cmp" and z.a[0] == "!=" and (tm.is_const(z.a[1], 0) or tm.is_const(z.a[2], 0)):
+                        z = z.a[2] if tm.is_const(z.a[1], 0) else z.a[1]
+                    if kb and z is not None and z.op == "sub" and z.a[1].op == "tuple" and len(z.a[1].a) == 2:
+                        fa = facet_of(z.a[0])
+                        i0, i1 = z.a[1].a
+                        rows = i0.op == "call" and call_name(i0) == "np.arange"
+                        if fa is not None and fa[1] == "SEMIall" and role_of(fa[0]) == "R" and rows and facet_of(i1) == facet_of(u.a[2]):
+                            good = True
         yield ob("C11.VOCAB", f, "chord.%s:bass-is-chord-tone" % name, good, "a reference whose bass is not a chord tone (bitmap[bass] == 0) is ignored")
 
 
@@ -591,6 +606,11 @@ def rule_encodeall(ctx):
         for k, m in enumerate(ms):
             v0 = m.val.a[0] if m.val.op == "sub" else m.val
             alts = resolve_ite_free(v0)
+            for z in tm.walk(m.val):
+                if z.op == "call" and z.a[0].op == "class":
+                    # an instance of a class defined in the module carries the encodings: objects with their own
+                    # methods (__missing__, __getitem__) are outside what the summaries model
+                    raise AnalysisError(R, "encode_many: output %s[i] is read from an instance of %s; user-defined container classes are not modelled" % (root, z.a[0].a[0]))
             if m.val.op == "sub" and book_of(m.val.a[0]) is not None:
                 alts = [m.val]  # book[slot]: an entry of a codebook of encode() components
             good = bool(alts)
